@@ -276,6 +276,28 @@ def check_misc(ctx):
         want = {'ads': {'K': 5.0, 'n_m': 4.0 * scale}, 'des': {'K': 9.0, 'n_m': 4.2 * scale}}[br]
         if f0.ok and core.relerr([f0.value.model.params['K'], f0.value.model.params['n_m']], [want['K'], want['n_m']]) > 1e-5:
             ctx.violate(core.make_violation({'check': 'branch-isolation', 'branch': br, 'kind': 'wrong-branch-fitted'}, f'fit of branch {br} gives {f0.value.model.params}, generator {want}', {}))
+    # supplementary columns with missing cells take no part in a fit: parameters and reported error as for the same table without them
+    pn, nn_ = noisy_sets(scale)[1]
+    plain = pandas.DataFrame({'pressure': pn, 'loading': nn_})
+    gaps = plain.assign(enthalpy=[float('nan') if i % 3 == 0 else 30.0 - i for i in range(len(pn))], remark=[None if i % 4 == 1 else 'x' for i in range(len(pn))])
+    for mname in ('Langmuir', 'Toth', 'Henry'):
+        for route in ('ModelIsotherm(isotherm_data=...)', 'point isotherm, then fit', 'model list'):
+            def fit_table(df):
+                if route.startswith('ModelIsotherm'):
+                    return pygaps.ModelIsotherm(isotherm_data=df.copy(), pressure_key='pressure', loading_key='loading', model=mname, material='c12', adsorbate='N2', temperature=T, **U)
+                pi = pygaps.PointIsotherm(isotherm_data=df.copy(), pressure_key='pressure', loading_key='loading', material='c12', adsorbate='N2', temperature=T, **U)
+                return pygaps.ModelIsotherm.from_pointisotherm(pi, model=mname if route.startswith('point') else [mname, 'Henry'])
+            a, b = core.call(fit_table, plain), core.call(fit_table, gaps)
+            ev += 1
+            if not a.ok:
+                continue
+            nt += 1
+            if not b.ok or b.value.model.name != a.value.model.name or core.relerr(list(b.value.model.params.values()), list(a.value.model.params.values())) > 1e-9 \
+                    or abs(b.value.model.rmse - a.value.model.rmse) > 1e-9 * a.value.model.rmse or tuple(b.value.model.pressure_range) != tuple(a.value.model.pressure_range):
+                ctx.violate(core.make_violation({'check': 'supplementary-columns-influence-fit', 'route': route.split('(')[0]},
+                                                f'{mname} fitted to a table with partly empty supplementary columns ({route}): '
+                                                f'{(b.value.model.params, b.value.model.rmse, b.value.model.pressure_range) if b.ok else b.brief()[:120]} but without those columns '
+                                                f'{(a.value.model.params, a.value.model.rmse, a.value.model.pressure_range)}', {'model': mname, 'route': route}))
     # the same data WITHOUT branch marks (the split is guessed) in tables with other row labels; also fitted directly from the table
     for iname, idx in (('0..n-1', None), ('1..n', list(range(1, len(pa) + len(pd_) + 1))), ('cut out of a larger table', list(range(7, 7 + len(pa) + len(pd_)))),
                        ('text labels', [f'pt{i}' for i in range(len(pa) + len(pd_))])):
